@@ -36,6 +36,8 @@ Templates ==
     pass_file_key|-> PassFileKey(Sym("password"), Sym("salt")),
     pass_prefix  |-> PassAadPrefix,
     locked_key   |-> LockedKey(Sym("sk"), Sym("password"), Sym("salt")),
+    lock_kdf     |-> LockKdf(Sym("password"), Sym("salt")),
+    locked_key_under |-> LockedKeyUnder(Sym("key"), Sym("sk"), Sym("salt")),
     encoded_pub  |-> EncodedPub(Sym("pk")),
     key_block    |-> KeyBlock(Sym("name"), Sym("pk"), Sym("locked")),
     pub_of       |-> PubOf(Sym("sk")),
